@@ -37,7 +37,7 @@ Base ==
      const_keys |-> <<150, 151, 152>>, none_key |-> 150,
      const_is_str |-> <<FALSE, TRUE, FALSE>>, const_is_code |-> <<FALSE, FALSE, FALSE>>,
      first |-> 1, argcount |-> 0, posonly |-> 0, kwonly |-> 0, flags |-> {},
-     name |-> 60, filename |-> 61, stacksize |-> 10,
+     name |-> 60, filename |-> 61, stacksize |-> 10, expected_all |-> 1,
      table |-> <<>>]
 
 VARIABLES units, s, done
@@ -99,7 +99,8 @@ Result ==
     IN [exc |-> f.exc, instrs |-> f.instrs, block_starts |-> f.block_starts,
         block_lens |-> [b \in 1..nb |-> (IF b < nb THEN f.block_starts[b + 1] ELSE ni) - f.block_starts[b]],
         additional |-> f.additional,
-        is_fn |-> FALSE, params |-> <<>>, nargs |-> 0, doc |-> <<>>, fn_type |-> ""]
+        is_fn |-> FALSE, params |-> <<>>, nargs |-> 0, doc |-> <<>>, fn_type |-> "",
+        iter |-> <<>>, iter_exc |-> "", all_count |-> 1, all_first_self |-> TRUE]
 
 NoInsp == [ok |-> FALSE, bind |-> <<>>, doc |-> <<>>, kind |-> ""]
 
